@@ -34,6 +34,56 @@ type Spec struct {
 	Deflate bool `json:"deflate,omitempty"`
 	// SigFile: heal against the signature read back from a signature stream instead of the computed one
 	SigFile bool `json:"sig_file,omitempty"`
+	// Twin: while the directory is healed, another build (three files of 70000..200000 bytes, its directory
+	// missing) is healed again and again by another ValidatorContext in the same process; both must come out right
+	Twin bool `json:"twin,omitempty"`
+}
+
+var twinTree = h.Tree{
+	{Path: "t", Kind: h.KDir},
+	{Path: "t/big", Kind: h.KFile, C: h.Content{{Src: 77, Off: 3, Len: 200000}}},
+	{Path: "u", Kind: h.KFile, C: h.Content{{Src: 78, Off: 0, Len: 70000}}},
+	{Path: "v", Kind: h.KFile, C: h.Content{{Src: 79, Off: 9, Len: 131072}}},
+}
+
+// healTwin heals the twin build into fresh directories until stop is closed (at least once); it returns what went
+// wrong, if anything.
+func healTwin(d string, stop chan struct{}) (string, int) {
+	ref, zp := filepath.Join(d, "twin-ref"), filepath.Join(d, "twin.zip")
+	if err := twinTree.Write(ref); err != nil {
+		return "", 0
+	}
+	si, err := h.SignatureOf(ref, false)
+	if err != nil {
+		return "twin: signing failed: " + err.Error(), 0
+	}
+	fw, err := os.Create(zp)
+	if err != nil {
+		return "", 0
+	}
+	_, err = archiver.CompressZip(fw, ref, h.Quiet())
+	fw.Close()
+	if err != nil {
+		return "twin: CompressZip failed: " + err.Error(), 0
+	}
+	idx := indexOf(si.Container)
+	for n := 1; ; n++ {
+		work := filepath.Join(d, fmt.Sprintf("twin-work%d", n))
+		vctx := &pwr.ValidatorContext{HealPath: "archive," + zp, Consumer: h.Quiet()}
+		if err := vctx.Validate(context.Background(), work, si); err != nil {
+			return fmt.Sprintf("a second build healed at the same time in the same process (heal #%d of it): healing its missing directory failed: %v", n, err), n
+		}
+		if after := h.Observe(work, twinTree, idx); len(after) > 0 {
+			a := after[0]
+			return fmt.Sprintf("a second build healed at the same time in the same process (heal #%d of it): after healing, %s %s is wrong: missing=%v shorter=%v longer=%v diffs=%v", n, a.Kind, a.Path, a.Missing, a.Shorter, a.Longer, a.DiffOffsets), n
+		}
+		os.RemoveAll(work)
+		select {
+		case <-stop:
+			return "", n
+		default:
+		}
+	}
 }
 
 // writeDeflateZip writes tree tr (already on disk below dir) as a standard zip.
@@ -192,6 +242,22 @@ func check(s Spec) h.Result {
 		reps = 1
 	}
 	nt := false
+	twinMsg, twinStop, twinDone := "", make(chan struct{}), make(chan struct{})
+	if s.Twin {
+		cl = append(cl, "process:another-build-healed-at-the-same-time")
+		go func() {
+			twinMsg, _ = healTwin(d, twinStop)
+			close(twinDone)
+		}()
+		defer func() {
+			select {
+			case <-twinStop:
+			default:
+				close(twinStop)
+			}
+			<-twinDone
+		}()
+	}
 	for rep := 0; rep < reps; rep++ {
 		work := filepath.Join(d, fmt.Sprintf("work%d", rep))
 		if err := s.Tree.Write(work); err != nil {
@@ -266,6 +332,13 @@ func check(s Spec) h.Result {
 		}
 		os.RemoveAll(work)
 	}
+	if s.Twin {
+		close(twinStop)
+		<-twinDone
+		if twinMsg != "" {
+			return h.Result{Fail: twinMsg, Classes: cl}
+		}
+	}
 	return h.Result{Classes: cl, NonTrivial: nt, Sub: reps}
 }
 
@@ -304,6 +377,7 @@ var prop = h.Prop[Spec]{
 		s.Reps = 2
 		s.Deflate = rapid.IntRange(0, 2).Draw(t, "deflate-archive") == 0
 		s.SigFile = rapid.IntRange(0, 3).Draw(t, "signature-from-stream") == 0
+		s.Twin = rapid.IntRange(0, 3).Draw(t, "another-heal-at-the-same-time") == 0
 		return s
 	},
 	Check: check,
